@@ -682,6 +682,57 @@ func c18Bounds(c *Ctx) {
 	}
 }
 
+// C13.7: the functions that first touch a received (possibly forged) datagram never index or slice it out of bounds and
+// reach no explicit panic that the peer controls: BND over the receive entry points themselves (not their callees, which
+// are the wire parsers of C08 and the unpacker of C05).
+var bndReceiveExceptions = map[string]string{
+	"(*quic.Conn).handleOnePacket#index[0]#1":    "p.data is `data` (assigned at the loop head or equal to it on the first iteration) and the loop runs only while len(data) > 0",
+	"(*quic.Conn).handleRetryPacket#slice[:v]#1": "a Retry reaches this function only after wire.ParsePacket accepted it, and parseLongHeader rejects a Retry with fewer than 17 bytes after the header (token length = remaining - 16 must be positive)",
+	"(*quic.baseServer).handlePacketImpl#index[0]#1": "the transport hands over only packets whose first byte it has already looked at (Transport.handlePacket drops empty datagrams)",
+	"(*quic.baseServer).handlePacketImpl#panic#1":    "misrouted short-header packet: Transport.handlePacket routes only long-header packets to the server (the branch guards an internal routing bug, not a wire value)",
+	"(*quic.baseServer).handleInitialImpl#panic#1":   "panics when the application's ConnContext callback returns a nil context: the endpoint's own configuration, not the wire",
+}
+
+func c13ReceiveBounds(c *Ctx) {
+	const R = "C13.7"
+	var fns []*ssa.Function
+	for _, r := range [][3]string{{"", "packetUnpacker", "UnpackLongHeader"}, {"", "packetUnpacker", "UnpackShortHeader"}, {"", "Transport", "maybeHandleStatelessReset"}, {"", "Transport", "handlePacket"},
+		{"", "Conn", "handleOnePacket"}, {"", "Conn", "handleRetryPacket"}, {"", "Conn", "handleVersionNegotiationPacket"}, {"", "Conn", "handleShortHeaderPacket"}, {"", "Conn", "handleLongHeaderPacket"},
+		{"", "closedLocalConn", "handlePacket"}, {"", "baseServer", "handlePacketImpl"}, {"", "baseServer", "handleInitialImpl"}, {"", "baseServer", "handle0RTTPacket"}} {
+		f, err := c.P.Func1(r[0], r[1], r[2])
+		if err != nil {
+			c.Bad(R, "root:"+r[2], "-", "receive entry point not found")
+			continue
+		}
+		c.FuncsSet[funcName(f)] = true
+		fns = append(fns, withAnon(f)...)
+	}
+	unp, err := compilerUnproven(c.P.RepoDir, c.P.GOARCH, []string{"."})
+	if err != nil {
+		c.Err(R, "compiler bounds-check listing (root package)", err)
+		return
+	}
+	c.Floor(R, "bounds checks the compiler could not remove in the root package (listing alive)", len(unp), 50)
+	sites := c.P.bndSites(fns, unp, bndReceiveExceptions)
+	c.Floor(R, "index/slice/panic sites in the receive entry points", len(sites), 10)
+	used := map[string]bool{}
+	for _, st := range sites {
+		key := st.Expr
+		if i := strings.Index(key, " ("); i > 0 {
+			key = key[:i]
+		}
+		if st.How == "X" {
+			used[key] = true
+		}
+		c.Check(st.OK, R, "bnd:"+key, c.P.InstrPos(st.Instr), fmt.Sprintf("%s — %s", st.Expr, st.Why))
+	}
+	for k := range bndReceiveExceptions {
+		if !used[k] {
+			c.OK(R, "exception-unused:"+k, "-", "the excepted site no longer exists or is now discharged by a fact (harmless)")
+		}
+	}
+}
+
 // C09.14: the scrambler's ClientHello parser (sni.go) never indexes or slices out of bounds: every index/slice site
 // reachable from findSNIAndECH is compiler-proven or follows from a length fact (BND engine).
 func c09SNIParserBounds(c *Ctx) {
